@@ -104,6 +104,9 @@ pub struct RefStep {
 pub struct RefPath {
     pub ifs: Vec<(u32, u16)>,
     pub pieces: Vec<RefPiece>,
+    /// other loop-free candidates with the same interface sequence
+    #[serde(default)]
+    pub alts: Vec<Vec<RefPiece>>,
     pub mtu: u32,
     pub exp: u32,
     pub nlinks: u32,
